@@ -23,7 +23,8 @@ Inductive item :=
 | IEq (f v : string)       (* f=v *)
 | ISep (f v : string)      (* f v *)
 | IAtt (f v : string)      (* fv for a two-character option f *)
-| IPos (s : string).       (* not an option: source files, output names ... *)
+| IPos (s : string)        (* not an option: source files, output names ... *)
+| IUnk (t : string).       (* an option the compiler definition says nothing about (-Wall, -std=c++17) *)
 
 Definition render_item (it : item) : list string :=
   match it with
@@ -32,6 +33,7 @@ Definition render_item (it : item) : list string :=
   | ISep f v => [f; v]
   | IAtt f v => [(f ++ v)%string]
   | IPos s => [s]
+  | IUnk t => [t]
   end.
 Definition render (l : list item) : list string := flat_map render_item l.
 
@@ -61,7 +63,7 @@ Fixpoint scan (rs : list rule) (toks : list string) : option (list item) :=
                    match find_opt rs (head2 t) with
                    | Some ru => if nargs0 (r_act ru) then None
                                 else option_map (cons (IAtt (head2 t) (tail2 t))) (scan rs r)
-                   | None => None
+                   | None => option_map (cons (IUnk t)) (scan rs r)
                    end
                end
            end
@@ -95,6 +97,16 @@ Definition wf_item (rs : list rule) (it : item) : bool :=
       | _ => false
       end
   | IPos s => negb (starts_dash s)
+  | IUnk t =>
+      (* neither an option, nor option=value, nor a short option with attached value,
+         nor a prefix of a single-dash option *)
+      starts_dash t && negb (String.eqb t "--") &&
+      match find_opt rs t with Some _ => false | None => true end &&
+      match split_first "="%char t with
+      | Some (o, _) => match find_opt rs o with Some _ => false | None => true end
+      | None => true
+      end &&
+      (second_dash t || match tuples (all_flags rs) t with [] => true | _ => false end)
   end.
 
 (* declared meaning of one item *)
@@ -103,7 +115,7 @@ Definition item_effect (rs : list rule) (it : item) (n : ns) : ns :=
   | I0 f => match find_opt rs f with Some r => apply_rule false r f "" n | None => n end
   | IEq f v | ISep f v | IAtt f v =>
       match find_opt rs f with Some r => apply_rule false r f v n | None => n end
-  | IPos _ => n
+  | IPos _ | IUnk _ => n
   end.
 
 Definition spec_ns (c : compiler) (items : list item) : ns :=
